@@ -29,6 +29,7 @@ func PointIndexOK(point string) bool { panic("ghost") }
 //@ params ctx
 //@ returns res, err
 //@ requires ctx != nil && ctx.QueryPlan != nil && ctx.Request != nil
+//@ requires len(ctx.QueryPlan.RootSteps) > 0
 //@ requires forallT(u, string, has(ctx.Queryers, u) ==> ctx.Queryers[u] != nil)
 //@ ensures[res-or-err] err == nil ==> res != nil @props C09 C07
 //@ ensures[err-no-data] err != nil ==> res == nil @props C09
@@ -37,8 +38,9 @@ func PointIndexOK(point string) bool { panic("ghost") }
 //@ end
 
 //@ func (ParallelExecutor).Execute
-//@ props C09
+//@ props C09 C07
 //@ requires ctx != nil && ctx.QueryPlan != nil && ctx.Request != nil
+//@ requires len(ctx.QueryPlan.RootSteps) > 0
 //@ requires forallT(u, string, has(ctx.Queryers, u) ==> ctx.Queryers[u] != nil)
 //@ modifies-assumed fresh, entries(map[string]interface{}), elems(interface{}), elems(map[string]interface{}), global(queryer.QueryCalls), global(queryer.LastStatus), all(queryer.MultiOpQueryer.client)
 //@ end
@@ -309,11 +311,13 @@ func PointIndexOK(point string) bool { panic("ghost") }
 //@ end
 
 //@ func NewDepthExecutorManager
-//@ props C09
+//@ props C09 C07
 //@ requires ctx != nil && ctx.QueryPlan != nil && ctx.Request != nil
 //@ requires forallT(u, string, has(ctx.Queryers, u) ==> ctx.Queryers[u] != nil)
 //@ ensures[wf] result != nil && result.depthExecutors != nil && result.result != nil && result.pointDataExtractor != nil && result.maxDepth >= 0
-//@ assumes-post forall(d, 0, result.maxDepth+1, has(result.depthExecutors, d))
+// (the depths of a plan are contiguous: a child step is one level below its parent - walkPlanStep - and depth 0 holds the
+// root steps, of which there has to be at least one: a plan without any step has no depth executor at all, B30)
+//@ assumes-post len(ctx.QueryPlan.RootSteps) > 0 ==> forall(d, 0, result.maxDepth+1, has(result.depthExecutors, d))
 //@ ensures[des] forallT(d, int, has(result.depthExecutors, d) ==> wfDE(result.depthExecutors[d]))
 //@ modifies-assumed fresh
 //@ loop 1 invariant[des] depthExecutors != nil && fresh(depthExecutors) && maxDepth >= 0 && forallT(d, int, has(depthExecutors, d) ==> wfDE(depthExecutors[d]))
